@@ -234,6 +234,27 @@ namespace vh
     return o.os.str();
   }
 
+  template<std::size_t L>
+  std::string DenseCfg<L>::forcingflat(Tok& t, std::size_t ncell, std::size_t ns)
+  {
+    using DM = typename DenseOf<L>::type;
+    auto perm = t.nats(ns);
+    auto procs = mech(t);
+    std::size_t nrx = procs.size();
+    auto k = t.flts(ncell * nrx);
+    auto y = t.flts(ncell * ns);
+    auto f0 = t.flts(ncell * ns);
+    micm::ProcessSet ps(procs, nameMap(perm));
+    DM K = denseFrom<DM>(ncell, nrx, k), Y = denseFrom<DM>(ncell, ns, y), F = denseFrom<DM>(ncell, ns, f0);
+    ps.AddForcingTerms<DM>(K, Y, F);
+    Out o;
+    o.os << "forcingflat";
+    o.key("f");
+    for (auto v : F.AsVector())
+      o.d(v);
+    return o.os.str();
+  }
+
   // ---------------------------------------------------------------- jacobian
   template<std::size_t L, bool CSC>
   std::string KernelCfg<L, CSC>::jacobian(Tok& t, std::size_t ncell, std::size_t ns)
